@@ -296,6 +296,12 @@ CREATE OR REPLACE MACRO vtl_tp_shift(p vtl_time_period, n INTEGER) AS (
         WHEN 'A' THEN
             vtl_period_to_string({'year': p.year + n,
                 'period_indicator': 'A', 'period_number': 1}::vtl_time_period)
+        -- Weeks and days go through the calendar: a year has 52 or 53 ISO weeks and 365 or 366 days,
+        -- so a fixed per-year limit skips or repeats periods around 53-week and leap years.
+        WHEN 'W' THEN
+            vtl_time_agg_date(CAST(vtl_tp_start_date(p) + INTERVAL (n * 7) DAY AS DATE), 'W')
+        WHEN 'D' THEN
+            vtl_time_agg_date(CAST(vtl_tp_start_date(p) + INTERVAL (n) DAY AS DATE), 'D')
         ELSE
             vtl_period_to_string({
                 'year': p.year + CASE
